@@ -6,13 +6,14 @@
    (PolicyGroupToIptablesChains).  `run_chain` evaluates it as netfilter would (Common/Ipt.v).
    `expected` (Spec.v) is PolicyRef.endpoint_verdict - tiers in order, first allow/deny decides, pass moves on,
    end-of-tier default, staged policies ignored, then profiles, else deny - preceded by what the chain does before
-   policy (admin-down drop, conntrack ESTABLISHED/RELATED/INVALID, VXLAN/IPIP from workloads).  `ok_result` says the
+   policy (admin-down drop, QoS packet rate, conntrack ESTABLISHED/RELATED/INVALID, QoS connection limit, VXLAN/IPIP
+   from workloads; the QoS limits are oracles `e_other` that must not read the mark: `other_unmarked`).  `ok_result` says the
    run ended as expected: RETURN with the accept mark set / DROP or REJECT / the allow action.
    `rule_ok c e r` is C08's per-rule statement (rendered rules of r take r's action iff r matches). *)
 From Coq Require Import List NArith Bool Arith String.
 From Verif.Common Require Import Packet PolicyRef Ipt.
 From Verif.C08 Require Import Model Spec ProofsFilter.
-From Verif.C09 Require Import Model Spec ProofsMarks ProofsPolicy ProofsGroup ProofsEndpoint ProofsRaw ProofsEquiv ProofsStaged ProofsModel.
+From Verif.C09 Require Import Model Spec ProofsMarks ProofsPolicy ProofsGroup ProofsEndpoint ProofsRaw ProofsQos ProofsEquiv ProofsStaged ProofsGrouping ProofsModel.
 Import ListNotations.
 Open Scope N_scope.
 
@@ -28,8 +29,9 @@ Theorem c09_endpoint_verdict : forall c e ec v name tiers profiles f p,
   NoDup (map fst (render_endpoint ec c v name tiers profiles)) ->
   (forall r, In r (all_rules tiers profiles) -> rule_ok c e r) ->
   profiles_in_domain ec profiles = true ->
+  other_unmarked e ->
   wf_packet p -> pk_ver p = v -> entry_mark_ok c p = true ->
-  ok_result ec c (expected ec (e_sets e) tiers profiles p) p
+  ok_result ec c (expected ec c e tiers profiles p) p
     (run_chain (3 + f) (render_endpoint ec c v name tiers profiles) e name p) = true.
 Proof. exact endpoint_verdict_model. Qed.
 Print Assumptions c09_endpoint_verdict.
@@ -39,8 +41,9 @@ Print Assumptions c09_endpoint_verdict.
 Theorem c09_endpoint_verdict_in_table : forall c e cs v (Hm : marks_ok c = true) ec f tiers profiles p,
   ec_type ec = TNormal ->
   tiers_in_cs c e cs v tiers -> profiles_in_cs c e cs v ec profiles -> failsafe_ok e cs ec (S (S f)) ->
+  other_unmarked e ->
   wfp v p -> entry_mark_ok c p = true ->
-  ok_result ec c (expected ec (e_sets e) tiers profiles p) p
+  ok_result ec c (expected ec c e tiers profiles p) p
     (run (S (S (S f))) cs e (endpoint_rules ec c tiers profiles) p) = true.
 Proof. exact endpoint_verdict_in_table. Qed.
 Print Assumptions c09_endpoint_verdict_in_table.
@@ -52,8 +55,9 @@ Theorem c09_forward_verdict : forall c e ec v name tiers profiles f p,
   marks_ok c = true -> ec_type ec = TForward ->
   NoDup (map fst (render_endpoint ec c v name tiers profiles)) ->
   (forall r, In r (all_rules tiers profiles) -> rule_ok c e r) ->
+  other_unmarked e ->
   wf_packet p -> pk_ver p = v -> entry_mark_ok c p = true ->
-  ok_result ec c (expected ec (e_sets e) tiers profiles p) p
+  ok_result ec c (expected ec c e tiers profiles p) p
     (run_chain (3 + f) (render_endpoint ec c v name tiers profiles) e name p) = true.
 Proof. exact forward_verdict_model. Qed.
 Print Assumptions c09_forward_verdict.
@@ -66,11 +70,44 @@ Theorem c09_raw_verdict : forall c e ec v name tiers profiles f p,
   marks_ok c = true -> (ec_type ec = TUntracked \/ ec_type ec = TPreDNAT) ->
   NoDup (map fst (render_endpoint ec c v name tiers profiles)) ->
   (forall r, In r (all_rules tiers profiles) -> rule_ok c e r) ->
+  other_unmarked e ->
   wf_packet p -> pk_ver p = v -> entry_mark_ok c p = true ->
-  ok_result ec c (expected ec (e_sets e) tiers profiles p) p
+  ok_result ec c (expected ec c e tiers profiles p) p
     (run_chain (3 + f) (render_endpoint ec c v name tiers profiles) e name p) = true.
 Proof. exact raw_verdict_model. Qed.
 Print Assumptions c09_raw_verdict.
+
+(* MODEL MEETS SPEC, all four chain types in one statement: the correspondence oracle `ok_result (expected ...)`
+   accepts every run of the model's chain map (QoS controls on or off, any failsafe name, any allow action). *)
+Theorem c09_model_meets_spec : forall c e ec v name tiers profiles f p,
+  marks_ok c = true ->
+  NoDup (map fst (render_endpoint ec c v name tiers profiles)) ->
+  (forall r, In r (all_rules tiers profiles) -> rule_ok c e r) ->
+  (ec_type ec = TNormal -> profiles_in_domain ec profiles = true) ->
+  other_unmarked e ->
+  wf_packet p -> pk_ver p = v -> entry_mark_ok c p = true ->
+  ok_result ec c (expected ec c e tiers profiles p) p
+    (run_chain (3 + f) (render_endpoint ec c v name tiers profiles) e name p) = true.
+Proof. exact model_meets_spec. Qed.
+Print Assumptions c09_model_meets_spec.
+
+(* HOW THE GROUPS ARE FORMED (endpoint_mgr.go groupPolicies, model group_policies): an order-preserving partition
+   of the tier's policy list into non-empty maximal runs of equal selectors - putting the selector back on every
+   member gives back the input; neighbouring groups have different selectors; the oracle of the correspondence
+   run accepts it; and a tier whose groups are that partition has the reference meaning of the flat tier. *)
+Theorem c09_grouping_partition : forall (l : list (N * mpolicy)),
+  flat_map (fun sg => map (fun x => (fst sg, x)) (snd sg)) (group_runs l) = l
+  /\ List.concat (group_policies l) = map snd l
+  /\ Forall (fun sg => snd sg <> []) (group_runs l)
+  /\ adjacent_differ (map fst (group_runs l))
+  /\ (forall gs d, map g_pols gs = group_policies l ->
+        to_tier {| mt_groups := gs; mt_default := d |} = {| t_policies := map to_policy (map snd l); t_default := d |}).
+Proof. exact grouping_partition. Qed.
+Print Assumptions c09_grouping_partition.
+
+Theorem c09_grouping_model_meets_spec : forall l : list (N * N), grouping_ok l (group_policies l) = true.
+Proof. exact grouping_model_ok. Qed.
+Print Assumptions c09_grouping_model_meets_spec.
 
 (* rule_ok is C08's theorem: for the repaired renderer for every rule of C08's domain ... *)
 Theorem c09_rule_ok_fixed : forall c e r,
@@ -127,6 +164,17 @@ Theorem c09_stride_placement_ok :
 Proof. exact stride_placement_ok. Qed.
 Print Assumptions c09_stride_placement_ok.
 
+(* THE PLACEMENT CONDITION IS NEEDED: with the return rule only before the 6th enforced policy and every fifth jump
+   still unconditional (seeded change return-stride-once), a group of 11 enforced policies whose 6th allows and
+   whose 11th denies drops a packet the reference allows. *)
+Theorem c09_return_placement_necessary :
+  ~ (forall k, stride_first k = true -> k = 0%nat \/ once_ret k = true)
+  /\ pv (e_sets env_w) pols11 pkt_w = VAllow
+  /\ st cfg0' false false (pk_mark pkt_w)
+  /\ exists p', run_chain 3 cs11 env_w "g" pkt_w = RDone FDrop p'.
+Proof. exact return_placement_necessary. Qed.
+Print Assumptions c09_return_placement_necessary.
+
 (* STAGED POLICIES ARE INERT.  Removing every staged policy from the endpoint description (drop_staged) changes
    neither the rendered chain map (not one rule) nor the reference verdict; so whatever a staged policy contains,
    wherever it sits (alone in a group, between enforced policies, across a stride boundary), the verdict is that
@@ -156,7 +204,7 @@ Theorem c09_profile_pass_refuted_unfixed :
     /\ wf_packet p /\ entry_mark_ok c p = true
     /\ ref_verdict (e_sets e) tiers profiles p = VAllow
     /\ (exists p', run_chain 4 (render_endpoint ec c (pk_ver p) "ep" tiers profiles) e "ep" p = RDone FDrop p')
-    /\ ok_result ec c (expected ec (e_sets e) tiers profiles p) p
+    /\ ok_result ec c (expected ec c e tiers profiles p) p
          (run_chain 4 (render_endpoint ec c (pk_ver p) "ep" tiers profiles) e "ep" p) = false.
 Proof. exact profile_pass_refuted_unfixed. Qed.
 Print Assumptions c09_profile_pass_refuted_unfixed.
